@@ -332,7 +332,11 @@ def bounded(payload):
     ndag = 0
     for desc in ([[["call", "v0", "arr"], ["copy", "v1", "v0"]], [["call", "v0", "real"], ["copy", "v1", "v0"]]],
                  [[["call", "v0", "cplx"]], [["call", "v0", "uta"], ["copy", "v2", "v0"]], [["call", "v0", "int"]]],
-                 [[["call", "<state>s", "real"], ["call", "v3", "carr"]], [["call", "v3", "real"], ["sum", "v1", "v3", "<state>s"]]]):
+                 [[["call", "<state>s", "real"], ["call", "v3", "carr"]], [["call", "v3", "real"], ["sum", "v1", "v3", "<state>s"]]],
+                 # the same per-step name with kinds that do NOT unify (a flag in one phase, a number in the other; two user types)
+                 [[["call", "v0", "real"], ["cmp", "v1", "v0"]], [["call", "v0", "real"], ["copy", "v1", "v0"]]],
+                 [[["call", "v0", "uta"]], [["call", "v0", "utb"]]],
+                 [[["call", "v0", "real"], ["cmp", "v1", "v0"]], [["call", "v1", "arr"]], [["call", "v1", "uta"], ["copy", "v2", "v1"]]]):
         evals += 1
         ndag += 1
         d = dag_order_failure(desc)
